@@ -191,6 +191,8 @@ def correspondence(ctx, model_ok=True):
             steps = ["M:%s:%s" % (vlib.hx(n), vlib.hx(s)) for n, s in mods.items()] + ["S:" + vlib.hx(src)]
             lines.append(vlib.case_line(name, steps, steps=3000000, **mode))
         res = vlib.run_real(ctx.runner, lines)
+        if mode.get("events"):
+            first_lines, first_res = lines, res
         for (name, src, mods), (_, _, expected), r, (g, mi) in zip(plist, built, res, cases):
             st = (r.get("steps") or [{}])[-1] if isinstance(r, dict) else {}
             c = progs.canon_step(st if st else r)
@@ -213,6 +215,12 @@ def correspondence(ctx, model_ok=True):
                 ml = mod_lines(evs, g)
                 spans.append((len(mlines), len(ml), src, mods))
                 mlines.extend(ml)
+    sdn = 0
+    if model_ok:
+        sd = specdiff.diff_lines(ctx, first_lines, first_res, broken, what="program with modules",
+                                 payload_of=lambda i: {"program": plist[i][1], "modules": plist[i][2]})
+        failures += sd["failures"]
+        sdn = sd["compared"]
     if model_ok and mlines and THEOREM_MODULES:
         try:
             ans = vlib.run_model("mod", mlines)
@@ -233,7 +241,7 @@ def correspondence(ctx, model_ok=True):
         "shapes": shapes,
         "import_events_replayed": len(mlines),
         "traces_validated_against_impl": len(spans),
-        "programs": len(plist),
+        "programs": len(plist), "steps_compared_with_reference_interpreter": sdn,
     }
     return {"failures": dedupe(failures), "coverage": cov, "broken": broken}
 
@@ -276,6 +284,8 @@ def dedupe(failures):
 
 
 def replay(ctx, payload):
+    if "case_line" in payload:
+        return specdiff.replay_line(ctx, payload)
     if "program" not in payload:
         return False, "nothing to replay"
     steps = ["M:%s:%s" % (vlib.hx(n), vlib.hx(s)) for n, s in payload.get("modules", {}).items()] + ["S:" + vlib.hx(payload["program"])]
